@@ -110,7 +110,7 @@ func (c V1) GetItemWithContext(_ awsv1.Context, in *ddbv1.GetItemInput, _ ...req
 }
 
 func (c V1) PutItemWithContext(_ awsv1.Context, in *ddbv1.PutItemInput, _ ...request.Option) (*ddbv1.PutItemOutput, error) {
-	if err := c.D.PutItem(awsv1.StringValue(in.TableName), itemFromV1(in.Item), awsv1.StringValue(in.ConditionExpression)); err != nil {
+	if err := c.D.PutItem(awsv1.StringValue(in.TableName), itemFromV1(in.Item), awsv1.StringValue(in.ConditionExpression), namesV1(in.ExpressionAttributeNames), map[string]Val(itemFromV1(in.ExpressionAttributeValues))); err != nil {
 		return nil, v1err(err)
 	}
 	return &ddbv1.PutItemOutput{}, nil
@@ -230,7 +230,7 @@ func (c V2) GetItem(_ context.Context, in *ddbv2.GetItemInput, _ ...func(*ddbv2.
 }
 
 func (c V2) PutItem(_ context.Context, in *ddbv2.PutItemInput, _ ...func(*ddbv2.Options)) (*ddbv2.PutItemOutput, error) {
-	if err := c.D.PutItem(awsv2.ToString(in.TableName), itemFromV2(in.Item), awsv2.ToString(in.ConditionExpression)); err != nil {
+	if err := c.D.PutItem(awsv2.ToString(in.TableName), itemFromV2(in.Item), awsv2.ToString(in.ConditionExpression), in.ExpressionAttributeNames, map[string]Val(itemFromV2(in.ExpressionAttributeValues))); err != nil {
 		return nil, v2err(err)
 	}
 	return &ddbv2.PutItemOutput{}, nil
